@@ -320,11 +320,13 @@ fn source_with_alias(std_key: &str, key: &str, text: &str, spelling: u8, alias_p
     let alias = match alias_pos {
         0 => None,
         1 | 2 => alias_entry(std_key),
-        _ => (std_key == "time").then_some("prep time: 10"),
+        3 | 4 => (std_key == "time").then_some("prep time: 10"),
+        // two earlier entries for which the caller's validator flips its switches (see `parse_case`)
+        _ => Some(if spelling == 0 { "qq: 1\n>> ww: 1" } else { "qq: 1\nww: 1" }),
     };
     let pre = if spelling == 0 { ">> " } else { "" };
     let (before, after) = match (alias, alias_pos) {
-        (Some(a), 1 | 3) => (format!("{pre}{a}\n"), String::new()),
+        (Some(a), 1 | 3 | 5) => (format!("{pre}{a}\n"), String::new()),
         (Some(a), 2 | 4) => (String::new(), format!("{pre}{a}\n")),
         _ => (String::new(), String::new()),
     };
@@ -333,6 +335,29 @@ fn source_with_alias(std_key: &str, key: &str, text: &str, spelling: u8, alias_p
         1 => format!("---\n{before}{key}: \"{}\"\n{after}---\nstep\n", text.replace('\\', "\\\\").replace('"', "\\\"")),
         _ => format!("---\n{before}{key}: {text}\n{after}---\nstep\n"),
     }
+}
+
+/// with `validator`: a caller-supplied metadata validator that switches the standard checks off for the
+/// entry `qq` and excludes the entry `ww`, and leaves every other entry alone
+fn parse_case(parser: &CooklangParser, src: &str, validator: bool) -> cooklang::RecipeResult {
+    if !validator {
+        return parser.parse(src);
+    }
+    use cooklang::analysis::{CheckOptions, CheckResult};
+    parser.parse_with_options(
+        src,
+        cooklang::ParseOptions {
+            recipe_ref_check: None,
+            metadata_validator: Some(Box::new(|k: &serde_yaml::Value, _v: &serde_yaml::Value, o: &mut CheckOptions| {
+                match k.as_str() {
+                    Some("qq") => o.run_std_checks(false),
+                    Some("ww") => o.include(false),
+                    _ => {}
+                }
+                CheckResult::Ok
+            })),
+        },
+    )
 }
 
 fn n_warnings(r: &cooklang::RecipeResult) -> usize {
@@ -344,11 +369,11 @@ fn n_errors(r: &cooklang::RecipeResult) -> usize {
 
 fn eval_case(parser: &CooklangParser, cname: &str, c: &Case) -> Option<Violation> {
     // front-matter entries are also checked next to another spelling of the same standard key
-    for alias_pos in 0..5u8 {
+    for alias_pos in 0..6u8 {
         if matches!(alias_pos, 1 | 2) && (c.spelling == 0 || alias_entry(c.key).is_none()) {
             continue;
         }
-        if alias_pos >= 3 && (c.key != "time" || matches!(c.expect, Expect::Composed(..))) {
+        if matches!(alias_pos, 3 | 4) && (c.key != "time" || matches!(c.expect, Expect::Composed(..))) {
             continue;
         }
         if let Some(v) = eval_case_at(parser, cname, c, alias_pos) {
@@ -362,8 +387,8 @@ fn eval_case_at(parser: &CooklangParser, cname: &str, c: &Case, alias_pos: u8) -
     let src = source_with_alias(c.key, c.key, &c.text, c.spelling, alias_pos);
     let baseline_src = source_with_alias(c.key, "zz", &c.text, c.spelling, alias_pos);
     let conv = parser.converter();
-    let r = parser.parse(&src);
-    let b = parser.parse(&baseline_src);
+    let r = parse_case(parser, &src, alias_pos == 5);
+    let b = parse_case(parser, &baseline_src, alias_pos == 5);
     let case = json!({"kind": "form", "key": c.key, "text": c.text, "spelling": c.spelling, "converter": cname, "source": src, "alias_pos": alias_pos});
     macro_rules! fail {
         ($class:expr, $($arg:tt)*) => {
@@ -375,7 +400,7 @@ fn eval_case_at(parser: &CooklangParser, cname: &str, c: &Case, alias_pos: u8) -
         fail!("error for a metadata value", "report {:?}", crate::oracles::diag_summary(r.report()));
     }
     let mut extra = n_warnings(&r) as i64 - n_warnings(&b) as i64;
-    if alias_pos >= 3 && c.expect != Expect::Rejected {
+    if matches!(alias_pos, 3 | 4) && c.expect != Expect::Rejected {
         // a valid `time` next to `prep time` may be announced as overriding it: not counted
         extra = 0;
     }
